@@ -29,6 +29,7 @@ type vhSnapshot struct {
 	mayRetransmit         retransmitFlag
 	version               uint16
 	whitespace            whitespaceState
+	nInjected             int
 }
 
 func vhBigBytes(x interface{ Bytes() []byte }) []byte { return x.Bytes() }
@@ -38,7 +39,7 @@ func vhSnap(c *Conversation) vhSnapshot {
 		ourTag: c.ourInstanceTag, theirTag: c.theirInstanceTag, ssid: c.ssid,
 		smpState: c.smp.state, fragIdx: c.fragmentationContext.currentIndex, fragLen: c.fragmentationContext.currentLen,
 		nOldMAC: len(c.keys.oldMACKeys), resendN: len(c.resend.messages.m), mayRetransmit: c.resend.mayRetransmit,
-		whitespace: c.whitespaceState}
+		whitespace: c.whitespaceState, nInjected: len(c.injections.messages)}
 	if c.version != nil {
 		s.version = c.version.protocolVersion()
 	}
@@ -81,7 +82,7 @@ func vhSameSession(x, y *vhSnapshot) bool {
 		x.ourTag == y.ourTag, x.theirTag == y.theirTag, x.ssid == y.ssid,
 		x.smpState == y.smpState, x.fragIdx == y.fragIdx, x.fragLen == y.fragLen,
 		x.nOldMAC == y.nOldMAC, x.resendN == y.resendN, x.mayRetransmit == y.mayRetransmit,
-		x.version == y.version, x.whitespace == y.whitespace,
+		x.version == y.version, x.whitespace == y.whitespace, x.nInjected == y.nInjected,
 	}
 	ok := vAll(conds...)
 	if len(x.theirCur) == len(y.theirCur) {
@@ -459,6 +460,50 @@ func VH_C06_rejected_ake() {
 		vReach("rejected")
 		after := vhAKESnap(c)
 		vAssert("O1-context-unchanged", vhSameAKE(&before, &after))
+	}
+	vReach("end")
+}
+
+
+func vhHex32(v uint32) []byte {
+	const d = "0123456789abcdef"
+	out := make([]byte, 8)
+	for i := 0; i < 8; i++ {
+		out[i] = d[(v>>uint(28-4*i))&15]
+	}
+	return out
+}
+
+// H-C06-rejected-fragment: a v3 fragment with arbitrary instance tags and
+// arbitrary numbering arrives through the public Receive in an encrypted
+// session (error-message handler installed).  Whatever reply the library
+// wants to make to it leaves with this very call: nothing stays queued for a
+// later Send or Receive; and a refused fragment leaves the session as it was.
+//
+// vh: prop=C06 expect=end unwind=400 timeout=60000
+func VH_C06_rejected_fragment() {
+	vhUseSmallGroup()
+	r := vhSymRatchetLite()
+	_, b := vhEncryptedPair(true, r)
+	stag, rtag := vU32("stag"), vU32("rtag")
+	kd := vhDigits("k", 5)
+	nd := vhDigits("n", 5)
+	msg := []byte("?OTR|")
+	msg = append(msg, vhHex32(stag)...)
+	msg = append(msg, '|')
+	msg = append(msg, vhHex32(rtag)...)
+	msg = append(msg, ',')
+	msg = append(msg, kd...)
+	msg = append(msg, ',')
+	msg = append(msg, nd...)
+	msg = append(msg, ",abcd,"...)
+	before := vhSnap(b.c)
+	plain, toSend, err := b.c.Receive(msg)
+	after := vhSnap(b.c)
+	vObserve("rejfrag", plain, len(toSend), err == nil, after.nInjected)
+	vAssert("O4-no-reply-held-back", len(b.c.injections.messages) == 0)
+	if err != nil {
+		vAssert("O1-refused-fragment-changes-nothing", vhSameSession(&before, &after))
 	}
 	vReach("end")
 }
